@@ -324,6 +324,46 @@ PROPS["C12"] = dict(
                  "the input of the model is the non-whitespace token list the real tokenizer produced"],
 )
 
+EXPRPRINT_TB = PRATT_TB + ["Model/ExprPrint.lean mirrors impl Display for Expr (src/ast/mod.rs), BinaryOperator/UnaryOperator (src/ast/operator.rs), Value (src/ast/value.rs) and Ident on the expression fragment by hand, as a list of (token, blank-before, text) pieces (tied by stream exprprint: text byte for byte; printed tokens against the real tokenizer where the real round trip holds)",
+                           "Model/Escape.lean escapeQ (escape_quoted_string) is reused for quoted identifiers and '..' / \"..\" literals"]
+
+PROPS["C01"] = dict(
+    lean=["SqlVerif.Props.C01"],
+    namespaces=["SqlVerif.Props.C01"],
+    required=["SqlVerif.Props.C01.norm_invariant", "SqlVerif.Props.C01.printer_emits_normal_forms",
+              "SqlVerif.Props.C01.reparse_fixpoint_sub", "SqlVerif.Props.C01.reparse_fixpoint_partial",
+              "SqlVerif.Props.C01.reparse_fixpoint_partial'", "SqlVerif.Props.C01.print_idempotent_partial",
+              "SqlVerif.Props.C01.showToks_norm", "SqlVerif.Props.C01.sexp_norm",
+              "SqlVerif.Props.C01.unary_minus_minus_not_lexsafe", "SqlVerif.Props.C01.ilike_any_escape_glued"],
+    corr=["exprprint", "chains"],
+    unique_output={"exprprint": False, "chains": False},
+    oracle=["C01"],
+    level_text="Partial. Proved in Lean on the executable models of the Pratt expression parser and of Display for the same expression fragment (identifiers in every quoting style, compound identifiers, numbers, '..' and \"..\" strings, placeholders, TRUE/FALSE/NULL, parentheses, NOT / unary sign / PostgreSQL prefix operators, every regular binary operator incl. MySQL DIV and custom operators, ANY/ALL/SOME, the IS family, IS [NOT] DISTINCT FROM, [NOT] IN (list), [NOT] BETWEEN, [NOT] LIKE/ILIKE/SIMILAR TO/RLIKE/REGEXP with ESCAPE, AT TIME ZONE, ::type, postfix !), for EVERY configuration record, fuel, recursion limit and token list: (norm_invariant) on two token lists with the same observable image - of a word only its keyword and the leading-underscore flag, == and = one operator - the parser takes the same branches, consumes equally many tokens and builds trees with the same image (simultaneous fuel induction over the mutual block, one lemma per head function); (printer_emits_normal_forms) every token the parser stored in a tree is, token by token, the token the printer emits for it up to keyword spelling (second fuel induction); hence (reparse_fixpoint_partial) if parse_expr accepts the whole token list and returns a printable tree e, parse_expr on the printed token list, with the SAME fuel and limit, returns e with its tokens in printed normal form, a tree whose S-expression - what the real AST holds - is that of e; (print_idempotent_partial) the tree read back prints to the same tokens and the same text. Normal forms mirrored from the code: == prints =, keywords and type names print in table spelling, TRUE/FALSE in lower case, an ESCAPE operand prints as '..' without escaping, unary + - ~ @ |/ ||/ !! are glued to their operand. The theorem is at TOKEN level; that the printed TEXT lexes back to the printed tokens is false for some trees of the fragment on the current code, with two kernel-checked witnesses through the tokenizer model: - - a prints --a (a comment), and a ILIKE ANY b ESCAPE '!' prints ANYb (Display for ILike omits the blank). Ties: stream exprprint (real parse_expr(tokens).to_string() vs model text, byte for byte, on every atom form x prefix operators x parentheses, every operator spelling, all ordered operator pairs, random nested expressions, 13 dialects; and real tokenizer on the printed text vs model printed tokens wherever the real round trip holds, the other lines being counted per root node as lex-unsafe) and stream chains (parser). The whole grammar (every statement kind, text level, 13 dialects x 4 option sets) is decided by the round-trip oracle on the real code: parse(print a) == [a], print idempotent, joined script.",
+    level_note="Trusted: Lean kernel (axioms propext, Classical.choice, Quot.sound); the hand-written parser and printer models (validated by the differentials on generated inputs only); Gen tables as dumped from the running crate. printable excludes four shapes whose printed token list is not a token-by-token image of the input (REGEXP RLIKE prints one operator, an ESCAPE operand written as a bare word or \"..\" prints as '..', :\"x\" loses its quotes, keyword tokens spelled with a leading underscore, which no lexer produces); they re-parse to the same S-expression (checked by evaluation in the theorem file and by the streams) but are outside the theorem. Not a theorem: LexSafe (text -> tokens) for the fragment - found failing by stream exprprint (lex-unsafe counts) and by the oracle; queries, statements, data types beyond the bare keyword (C18), functions, CASE/CAST, subqueries: oracle only. FullStatement is kept as a definition.",
+    technique="Lean 4 proofs (parser respects a token equivalence: simultaneous fuel induction with per-head-function lemmas; printer emits the stored tokens up to that equivalence; uniqueness of a tree given its image and its yield) + kernel-decided text-level counterexamples through the tokenizer model + Display differential (text and printed tokens) + whole-grammar round-trip oracle",
+    trusted_base=EXPRPRINT_TB,
+    assumptions=["Gen/Dialects.lean and Gen/Keywords.lean are the tables of the crate as built from /repo's working tree",
+                 "the input of the parser model is the non-whitespace token list the real tokenizer produced; printed text is compared as code points"],
+)
+
+PROPS["C05"] = dict(
+    lean=["SqlVerif.Props.C05"],
+    namespaces=["SqlVerif.Props.C05"],
+    required=["SqlVerif.Props.C05.content_preserved_partial", "SqlVerif.Props.C05.content_preserved_expr",
+              "SqlVerif.Props.C05.keywords_are_not_content", "SqlVerif.Props.C05.content_excluded_escape_word",
+              "SqlVerif.Props.C05.content_excluded_quoted_placeholder", "SqlVerif.Props.C05.loop_run",
+              "SqlVerif.Props.C05.loop_consumes_all", "SqlVerif.Props.C05.no_statement_only_at_eof"],
+    corr=["exprprint", "stmts"],
+    unique_output={"exprprint": False, "stmts": False},
+    oracle=["C05"],
+    level_text="Partial. Proved in Lean on the models of the Pratt expression parser and of Display for the same fragment (see C01), for EVERY configuration record, fuel, limit, context precedence and token list: if the parser accepts a prefix of the input and returns a printable tree e, the SEQUENCE (hence the multiset) of content tokens - identifiers with their quoting, numbers, string payloads, placeholders, the Content of the whole-grammar oracle - of the consumed prefix is exactly that of the printed token list of e: nothing lost, nothing invented, nothing reordered. It follows from yield (the tree holds exactly the consumed tokens, C04) and from the printer emitting the stored tokens one by one up to keyword spelling (second fuel induction, shared with C01). The two printable-excluded shapes that do change the content on the current code are kernel-checked witnesses: the bare-word operand of ESCAPE comes back as a string literal, the quotes of a quoted placeholder name (:\"x\") are dropped. For the statements loop (model of parse_statements, tied by stream stmts): a run that returns Ok is a derivation in which every token is consumed by a separator skip or handed to the statement parser, and Ok is returned only when nothing but separators is left or - the END deviation kept visible (C11 end_keyword_drops_tail) - directly after a complete statement at a word whose keyword is END, everything after it being dropped. Ties: stream exprprint (real to_string vs model text; printed tokens vs the real tokenizer) and stream stmts. The whole grammar is decided by the content-bag oracle on the real code: for every accepted corpus (text, dialect) pair the bag of content tokens of the input (real tokenizer) equals that of the printed parse.",
+    level_note="Trusted: Lean kernel (axioms propext, Classical.choice, Quot.sound); the hand-written parser, printer and loop models (validated by the differentials on generated inputs only). The theorem is at token level (printed tokens, not re-lexed text; see C01 for the text-level witnesses). Not a theorem: statement parsers (error-discarding sites that do not restore the cursor such as parse_identifier(..).ok(), greedy SHOW/identifier lists, quoted type modifiers): decided by the oracle only; failures there are findings with the statement variant and lost/invented token kind as signature.",
+    technique="Lean 4 proof (content sequence preserved: corollary of yield and of the printer-faithfulness induction; derivation-style characterisation of the statements loop) + kernel-decided witnesses for the excluded shapes + Display / statements-loop differentials + whole-grammar content-bag oracle",
+    trusted_base=EXPRPRINT_TB + ["Model/Stmts.lean mirrors parse_statements"],
+    assumptions=["Gen/Dialects.lean and Gen/Keywords.lean are the tables of the crate as built from /repo's working tree",
+                 "the input of the parser model is the non-whitespace token list the real tokenizer produced"],
+)
+
 # entries still under construction by a sub-agent are not claimed in MANIFEST.json yet
 for _hold in []:
     if _hold in PROPS:
